@@ -381,6 +381,16 @@ def handle (toks : List String) (impl : String) : Verdict :=
     let fifoOk := isSubseq (rawBlocks.map fun b => hex (b.flatMap (· ++ [LF])))
                             (issuedLines.map fun b => hex (b.flatMap (· ++ [LF])))
     let eventsExact := f.events == reported
+    -- C13 framing, seen from the server: a typed list of n >= 2 commands arrived as one command list
+    -- holding exactly the n `echo` lines in order, a list of one command as that bare command
+    let typedFramingBad : Option Nat :=
+      typedReqs.findSome? fun (rid, names) =>
+        if names.isEmpty || !(f.results.any fun r => r.1 == rid && r.2.startsWith "typed:") then none else
+        let want : List (Option (Bytes × List Bytes)) := names.map fun n => some (str "echo", [n])
+        let found := (f.sv.blocks.zip f.sv.blockKinds).any fun (b, isList) =>
+          b.1.map Spec.Tok.tokenizeLine == want && isList == (names.length ≥ 2)
+        if found then none else some rid
+    let typedPending := typedReqs.any fun (rid, _) => pendImpl.contains (toString rid)
     let eventsK3 := !lost.isEmpty && f.events == removeSubseq reported lost
     let oracle : String :=
       if impl == "PANIC" then "fail:panic"
@@ -399,6 +409,8 @@ def handle (toks : List String) (impl : String) : Verdict :=
            (e.startsWith "fail:C13" && on "C13") || e.startsWith "fail:result" then e else "ok"
       | none =>
         if on "C01" && honest && !fifoOk then "fail:C01-requests-out-of-order"
+        else if on "C13" && honest && connectedOk && !f.dropMain && typedPending then "fail:C13-typed-list-never-answered"
+        else if on "C13" && honest && typedFramingBad.isSome then s!"fail:C13-list-not-framed-as-one-block-{typedFramingBad.getD 0}"
         else if on "C04" && startsWith f.sv.out body && !(isSubseq f.events reported) then "fail:C04-event-not-reported-by-server"
         else if on "C04" && honest && connectedOk && !f.dropMain && !eventsExact then
           (if eventsK3 then "fail:C04-events-lost-with-dropped-receive-future" else "fail:C04-events-differ-from-reported")
